@@ -121,7 +121,7 @@ def rule_levels(ctx):
                   bad_detail='updated at loop depth %d, expected %d (once per %s)' % (depth, exp[1], ['block', 'transaction', 'output'][exp[1]]))
         # guards: required ones present; no other *data* guard (relations over block data) may restrict the update
         data_guards = [g for g in guards if ' is ' not in g or 'is_coinbase' in g]
-        data_guards = [g for g in data_guards if not g.startswith('branch(') and 'next(' not in g]
+        data_guards = [g for g in data_guards if not util.is_ok_guard(g) and 'next(' not in g]
         ok = sorted(data_guards) == sorted(exp[2])
         ctx.check(rule, 'guard:%s' % fld, ok, (ob, bb), 'update guarded by %s' % (data_guards or 'nothing'),
                   bad_detail='update guarded by %s, expected %s' % (data_guards, exp[2]))
@@ -143,7 +143,7 @@ def rule_levels(ctx):
             ctx.violation('levels', 'unexpected-push:%s' % vec, cs, '%s.push(%s)' % (vec, val))
             continue
         got[vec] = got.get(vec, 0) + 1
-        g = [x for x in guards if not x.startswith('branch(') and 'next(' not in x]
+        g = [x for x in guards if not util.is_ok_guard(x) and 'next(' not in x]
         ctx.check(exp[3], 'push:%s' % vec, val == exp[0] and depth == exp[1] and sorted(g) == sorted(exp[2]), cs,
                   '%s.push(%s) at depth %d under %s' % (vec, val, depth, g),
                   bad_detail='%s.push(%s) at depth %d under %s; expected push(%s) at depth %d under %s'
